@@ -39,6 +39,11 @@ TMutate == /\ Ev.op = "mutate"
            /\ Chk("C17.MutationVisible", Ev.copy # c)       \* (non-vacuity: the edit really happened)
            /\ o' = Ev.orig /\ c' = Ev.copy
 
-TNext == HasNext /\ Advance /\ (TCopy \/ TMutate)
+\* the copy operation itself raised: no copy exists, so it cannot be equal (the trace ends here)
+TCopyFail == /\ Ev.op = "copyfail"
+             /\ Chk("C17.CopySucceeds", FALSE)
+             /\ UNCHANGED <<o, c>>
+
+TNext == HasNext /\ Advance /\ (TCopy \/ TMutate \/ TCopyFail)
 TSpec == TInit /\ [][TNext]_<<tid, l, o, c>>
 =============================================================================
